@@ -1,6 +1,7 @@
 import GV.Model.ScriptDataHash
 import GV.Lib.AssocMap
 import GV.Gen.RuleLists
+import GV.Gen.ShortLex
 /-!
 C31 — The script data hash binds redeemers, datums and cost models.
 
@@ -236,6 +237,40 @@ example : [2, 0, 3, 1].Nodup ∧ (∀ v ∈ [2, 0, 3, 1], v < 4) := by decide
 example : (match encodeLangViews [0, 1] (fun v => if v = 0 then some [1, -1] else if v = 1 then some [24] else none) with
     | .ok b => b == [0xa2, 0x01, 0x81, 0x18, 0x18, 0x41, 0x00, 0x44, 0x9f, 0x01, 0x20, 0xff]
     | .error _ => false) = true := by decide
+
+
+-- ------------------------------------------------------------------ ShortLex, translated from the source
+
+theorem gen_go_lt : ∀ (a b : Bytes), GV.Gen.ShortLex.go a b < 0 ↔ shortLexLt.lexLt a b = true
+  | [], _ => by simp [GV.Gen.ShortLex.go, shortLexLt.lexLt]
+  | _ :: _, [] => by simp [GV.Gen.ShortLex.go, shortLexLt.lexLt]
+  | x :: xs, y :: ys => by
+    simp only [GV.Gen.ShortLex.go, shortLexLt.lexLt]
+    by_cases h1 : x < y
+    · have h1' : x.toNat < y.toNat := UInt8.lt_iff_toNat_lt.mp h1
+      simp [h1, h1']
+    · have h1' : ¬ x.toNat < y.toNat := fun h => h1 (UInt8.lt_iff_toNat_lt.mpr h)
+      by_cases h2 : y < x
+      · have h2' : x.toNat > y.toNat := UInt8.lt_iff_toNat_lt.mp h2
+        simp [h1, h1', h2, h2']
+      · have h2' : ¬ x.toNat > y.toNat := fun h => h2 (UInt8.lt_iff_toNat_lt.mpr h)
+        simp only [h1, h1', h2, h2', ↓reduceIte, Bool.false_eq_true]
+        exact gen_go_lt xs ys
+
+/-- Regenerated tie: `common.ShortLex`, translated from the Go source on every run (comparison
+    operators and returned constants are the source's), orders exactly as the model's `shortLexLt`
+    used by the language-views sort: `ShortLex(a, b) < 0 ↔ shortLexLt a b`. A `<` → `<=` edit or a
+    swapped return value in the source breaks this obligation. -/
+theorem gen_shortLex (a b : Bytes) : GV.Gen.ShortLex.shortLex a b < 0 ↔ shortLexLt a b = true := by
+  unfold GV.Gen.ShortLex.shortLex shortLexLt
+  by_cases h1 : a.length < b.length
+  · simp [h1]
+  · by_cases h2 : a.length > b.length
+    · have : b.length < a.length := h2
+      simp [h1, h2, this]
+    · have : ¬ b.length < a.length := h2
+      simp only [h1, h2, this, ↓reduceIte]
+      exact gen_go_lt a b
 
 /-- Regenerated tie: the rule is in the Alonzo..Dijkstra rule lists of the source as it is now. -/
 theorem rules_listed :
